@@ -1,5 +1,6 @@
 import Xsm.Proofs.Lifecycle
 import Xsm.Proofs.Termination
+import Xsm.Proofs.SyncDrain
 /-
 Helper definitions and lemmas for C04: what a drain receives, in which order, and what it writes.
 -/
@@ -54,268 +55,208 @@ theorem asyncStep_queue_eq (m : Machine) (u : UEnv) (q : QEv) (s : St) (hd : ¬ 
   simp
 
 -- the sync drain ---------------------------------------------------------------------------------------------------
-theorem drainLog_cons (m : Machine) (u : UEnv) (budget : Nat) (s : St) (q : QEv) (rest : List QEv)
-    (hq : s.queue = q :: rest) (hrun : s.status = "running") :
-    drainLog m u (budget + 1) s =
+open XSM.Term in
+theorem drainLog_zero (m : Machine) (u : UEnv) (c : Nat) (s : St) : drainLog m u 0 c s = [] := rfl
+
+open XSM.Term in
+/-- the head does not trip the bound: it is received, its macrostep runs, and the drain goes on unless it failed -/
+theorem drainLog_cons (m : Machine) (u : UEnv) (fuel c : Nat) (s : St) (q : QEv) (rest : List QEv)
+    (hq : s.queue = q :: rest) (hrun : s.status = "running") (ht : syncTrips m c q = false) :
+    drainLog m u (fuel + 1) c s =
       q.ev :: (if (syncMacro m u q.ev { s with queue := rest }).err.isSome = true then []
-               else drainLog m u budget (syncMacro m u q.ev { s with queue := rest })) := by
-  cases s with
-  | mk cfg hist queue status trace err ctx rd errors =>
-    simp only at hq hrun
-    subst hq; subst hrun
-    simp only [drainLog, ne_eq, not_true_eq_false, if_false]
+               else drainLog m u fuel (chainedNext c q) (syncMacro m u q.ev { s with queue := rest })) := by
+  unfold drainLog
+  rw [drainLogQ_step m u fuel c s q rest hq hrun ht]
+  split <;> simp
 
-theorem drainLog_nil (m : Machine) (u : UEnv) (budget : Nat) (s : St) (hq : s.queue = []) :
-    drainLog m u (budget + 1) s = [] := by
-  cases s with
-  | mk cfg hist queue status trace err ctx rd errors =>
-    simp only at hq
-    subst hq
-    simp only [drainLog]
+open XSM.Term in
+/-- the head is a marked event that trips the bound: nothing is received, the marked entries are purged -/
+theorem drainLog_trip (m : Machine) (u : UEnv) (fuel c : Nat) (s : St) (q : QEv) (rest : List QEv)
+    (hq : s.queue = q :: rest) (hrun : s.status = "running") (ht : syncTrips m c q = true) :
+    drainLog m u (fuel + 1) c s = drainLog m u fuel 0 (syncPurge s) := by
+  unfold drainLog
+  rw [drainLogQ_trip m u fuel c s q rest hq hrun ht]
 
-theorem drainLog_not_running (m : Machine) (u : UEnv) (budget : Nat) (s : St) (h : s.status ≠ "running") :
-    drainLog m u budget s = [] := by
-  cases budget with
+open XSM.Term in
+theorem drainLog_nil (m : Machine) (u : UEnv) (fuel c : Nat) (s : St) (hq : s.queue = []) :
+    drainLog m u (fuel + 1) c s = [] := by
+  unfold drainLog; rw [drainLogQ_nil m u fuel c s hq]; rfl
+
+open XSM.Term in
+theorem drainLog_not_running (m : Machine) (u : UEnv) (fuel c : Nat) (s : St) (h : s.status ≠ "running") :
+    drainLog m u fuel c s = [] := by
+  cases fuel with
   | zero => rfl
-  | succ n =>
-    cases hq : s.queue with
-    | nil => exact drainLog_nil m u n s hq
-    | cons q rest =>
-      cases s with
-      | mk cfg hist queue status trace err ctx rd errors =>
-        simp only at hq h
-        subst hq
-        simp only [drainLog, ne_eq, h, not_false_eq_true, if_true]
+  | succ n => unfold drainLog; rw [drainLogQ_dead m u n c s h]; rfl
 
-/-- **the drain budget counts every dequeued event**: one drain receives at most `budget` events -/
-theorem drainLog_length_le (m : Machine) (u : UEnv) : ∀ (budget : Nat) (s : St),
-    (drainLog m u budget s).length ≤ budget := by
-  intro budget
-  induction budget with
-  | zero => intro s; simp [drainLog]
-  | succ n ih =>
-    intro s
-    cases hq : s.queue with
-    | nil => rw [drainLog_nil m u n s hq]; simp
-    | cons q rest =>
-      by_cases hrun : s.status = "running"
-      · rw [drainLog_cons m u n s q rest hq hrun]
-        split
-        · simp
-        · have := ih (syncMacro m u q.ev { s with queue := rest })
-          simp only [List.length_cons]; omega
-      · rw [drainLog_not_running m u _ s hrun]; simp
+open XSM.Term in
+/-- the instrumented step counter of C13 counts exactly the received events -/
+theorem drainLog_length (m : Machine) (u : UEnv) (fuel c : Nat) (s : St) :
+    (drainLog m u fuel c s).length = Term.drainSteps m u fuel c s := by
+  unfold drainLog; rw [List.length_map]; exact drainLogQ_length m u fuel c s
 
-/-- a drain that did not raise leaves NOTHING queued (processed, or discarded by the budget / by a
-    machine that stopped running) -/
-theorem drainLoop_queue_nil (m : Machine) (u : UEnv) : ∀ (budget : Nat) (s : St),
-    (drainLoop m u budget s).err = none → (drainLoop m u budget s).queue = [] := by
-  intro budget
-  induction budget with
-  | zero =>
-    intro s _
-    rw [drainLoop_zero]
-    split
-    · rename_i h; exact List.isEmpty_iff.1 h
-    · rfl
-  | succ n ih =>
-    intro s he
-    cases hq : s.queue with
-    | nil => rw [drainLoop_nil m u n s hq]; exact hq
-    | cons q rest =>
-      by_cases hrun : s.status = "running"
-      · rw [drainLoop_cons m u n s q rest hq hrun] at he ⊢
-        split
-        · rename_i hs
-          rw [if_pos hs] at he
-          rw [he] at hs; exact absurd hs (by simp)
-        · rename_i hs
-          rw [if_neg hs] at he
-          exact ih _ he
-      · rw [drainLoop_not_running m u n hrun]
-        split
-        · rename_i h; exact h
-        · rfl
+/-- a drain that did not raise leaves NOTHING queued (processed, purged by a cut, or dropped by the status
+    gate of a machine that stopped running) -/
+theorem drainLoop_queue_nil (m : Machine) (u : UEnv) (fuel c : Nat) (s : St) :
+    (drainLoop m u fuel c s).err = none → (drainLoop m u fuel c s).queue = [] :=
+  Term.drainLoop_queue_nil_of_ok m u fuel c s
 
-/-- nothing cuts this drain short: the budget suffices, the machine keeps running, no macrostep raises -/
-def DrainClean (m : Machine) (u : UEnv) : Nat → St → Prop
-  | 0, s => s.queue = []
-  | budget + 1, s =>
+/-- nothing cuts this drain short: the bound never trips (and the model's fuel suffices), the machine keeps
+    running, no macrostep raises -/
+def DrainClean (m : Machine) (u : UEnv) : Nat → Nat → St → Prop
+  | 0, _, s => s.queue = []
+  | fuel + 1, c, s =>
     match s.queue with
     | [] => True
     | q :: rest =>
-      s.status = "running" ∧ (syncMacro m u q.ev { s with queue := rest }).err = none ∧
-        DrainClean m u budget (syncMacro m u q.ev { s with queue := rest })
+      s.status = "running" ∧ syncTrips m c q = false ∧ (syncMacro m u q.ev { s with queue := rest }).err = none ∧
+        DrainClean m u fuel (chainedNext c q) (syncMacro m u q.ev { s with queue := rest })
 
-theorem DrainClean_cons (m : Machine) (u : UEnv) (budget : Nat) (s : St) (q : QEv) (rest : List QEv)
+theorem DrainClean_cons (m : Machine) (u : UEnv) (fuel c : Nat) (s : St) (q : QEv) (rest : List QEv)
     (hq : s.queue = q :: rest) :
-    DrainClean m u (budget + 1) s ↔
-      (s.status = "running" ∧ (syncMacro m u q.ev { s with queue := rest }).err = none ∧
-        DrainClean m u budget (syncMacro m u q.ev { s with queue := rest })) := by
+    DrainClean m u (fuel + 1) c s ↔
+      (s.status = "running" ∧ syncTrips m c q = false ∧ (syncMacro m u q.ev { s with queue := rest }).err = none ∧
+        DrainClean m u fuel (chainedNext c q) (syncMacro m u q.ev { s with queue := rest })) := by
   cases s with
   | mk cfg hist queue status trace err ctx rd errors =>
     simp only at hq
     subst hq
     simp only [DrainClean]
 
-instance decDrainClean (m : Machine) (u : UEnv) : ∀ (b : Nat) (s : St), Decidable (DrainClean m u b s)
-  | 0, s => by unfold DrainClean; exact inferInstance
-  | b + 1, s => by
+instance decDrainClean (m : Machine) (u : UEnv) : ∀ (b c : Nat) (s : St), Decidable (DrainClean m u b c s)
+  | 0, c, s => by unfold DrainClean; exact inferInstance
+  | b + 1, c, s => by
     cases hq : s.queue with
     | nil => exact isTrue (by cases s; simp only at hq; subst hq; simp [DrainClean])
     | cons q rest =>
-      have := decDrainClean m u b (syncMacro m u q.ev { s with queue := rest })
-      exact decidable_of_iff _ (DrainClean_cons m u b s q rest hq).symm
+      have := decDrainClean m u b (chainedNext c q) (syncMacro m u q.ev { s with queue := rest })
+      exact decidable_of_iff _ (DrainClean_cons m u b c s q rest hq).symm
+
 
 /-- the events the macrosteps of this drain append to the queue, in the order they are appended -/
-def drainRaised (m : Machine) (u : UEnv) : Nat → St → List Ev
-  | 0, _ => []
-  | budget + 1, s =>
+def drainRaised (m : Machine) (u : UEnv) : Nat → Nat → St → List Ev
+  | 0, _, _ => []
+  | fuel + 1, c, s =>
     match s.queue with
     | [] => []
     | q :: rest =>
       if s.status ≠ "running" then []
-      else
-        (raisedBy m u q.ev { s with queue := rest }).map (·.ev) ++
-          (if (syncMacro m u q.ev { s with queue := rest }).err.isSome then []
-           else drainRaised m u budget (syncMacro m u q.ev { s with queue := rest }))
+      else if syncTrips m c q then drainRaised m u fuel 0 (syncPurge s)
+      else (raisedBy m u q.ev { s with queue := rest }).map (·.ev) ++ (if (syncMacro m u q.ev { s with queue := rest }).err.isSome then [] else drainRaised m u fuel (chainedNext c q) (syncMacro m u q.ev { s with queue := rest }))
 
-theorem drainRaised_cons (m : Machine) (u : UEnv) (budget : Nat) (s : St) (q : QEv) (rest : List QEv)
-    (hq : s.queue = q :: rest) (hrun : s.status = "running") :
-    drainRaised m u (budget + 1) s =
-      (raisedBy m u q.ev { s with queue := rest }).map (·.ev) ++
-        (if (syncMacro m u q.ev { s with queue := rest }).err.isSome = true then []
-         else drainRaised m u budget (syncMacro m u q.ev { s with queue := rest })) := by
-  cases s with
-  | mk cfg hist queue status trace err ctx rd errors =>
-    simp only at hq hrun
-    subst hq; subst hrun
-    simp only [drainRaised, ne_eq, not_true_eq_false, if_false]
+theorem drainRaised_zero (m : Machine) (u : UEnv) (c : Nat) (s : St) : drainRaised m u 0 c s = ([]) := by
+  simp only [drainRaised]
 
-theorem drainRaised_nil (m : Machine) (u : UEnv) (budget : Nat) (s : St) (hq : s.queue = []) :
-    drainRaised m u (budget + 1) s = [] := by
+theorem drainRaised_nil (m : Machine) (u : UEnv) (fuel c : Nat) (s : St) (hq : s.queue = []) :
+    drainRaised m u (fuel + 1) c s = [] := by
   cases s with
   | mk cfg hist queue status trace err ctx rd errors =>
     simp only at hq
     subst hq
     simp only [drainRaised]
 
-/-- **FIFO, exactly once (sync drain)**: a drain that nothing cuts short receives exactly the queued
-    events, in queue order, each once, and THEN the events its macrosteps raised, in raise order -/
-theorem drain_fifo (m : Machine) (u : UEnv) : ∀ (budget : Nat) (s : St), DrainClean m u budget s →
-    drainLog m u budget s = s.queue.map (·.ev) ++ drainRaised m u budget s := by
-  intro budget
-  induction budget with
-  | zero => intro s h; simp only [DrainClean] at h; simp [drainLog, drainRaised, h]
-  | succ n ih =>
-    intro s h
-    cases hq : s.queue with
-    | nil => rw [drainLog_nil m u n s hq, drainRaised_nil m u n s hq]; rfl
-    | cons q rest =>
-      obtain ⟨hrun, herr, hc⟩ := (DrainClean_cons m u n s q rest hq).1 h
-      have hns : ¬ (syncMacro m u q.ev { s with queue := rest }).err.isSome = true := by rw [herr]; simp
-      rw [drainLog_cons m u n s q rest hq hrun, drainRaised_cons m u n s q rest hq hrun, if_neg hns, if_neg hns,
-        ih _ hc, syncMacro_queue]
-      simp
-
--- the events queued when a drain starts (repair of F10) ---------------------------------------------------------------
-theorem drainCut_cons (m : Machine) (u : UEnv) (budget : Nat) (s : St) (q : QEv) (rest : List QEv)
-    (hq : s.queue = q :: rest) (hrun : s.status = "running") :
-    Term.drainCut m u (budget + 1) s =
-      if (syncMacro m u q.ev { s with queue := rest }).err.isSome = true then false
-      else Term.drainCut m u budget (syncMacro m u q.ev { s with queue := rest }) := by
-  cases s with
-  | mk cfg hist queue status trace err ctx rd errors =>
-    simp only at hq hrun
-    subst hq; subst hrun
-    simp only [Term.drainCut, syncMacro, ne_eq, not_true_eq_false, if_false]
-    rfl
-
-theorem drainCut_nil (m : Machine) (u : UEnv) (budget : Nat) (s : St) (hq : s.queue = []) :
-    Term.drainCut m u (budget + 1) s = false := by
-  cases s with
-  | mk cfg hist queue status trace err ctx rd errors =>
-    simp only at hq
-    subst hq
-    simp only [Term.drainCut]
-
-theorem drainCut_not_running (m : Machine) (u : UEnv) (budget : Nat) (s : St) (h : s.status ≠ "running") :
-    Term.drainCut m u (budget + 1) s = false := by
+theorem drainRaised_dead (m : Machine) (u : UEnv) (fuel c : Nat) (s : St) (h : s.status ≠ "running") :
+    drainRaised m u (fuel + 1) c s = [] := by
   cases hq : s.queue with
-  | nil => exact drainCut_nil m u budget s hq
+  | nil => exact drainRaised_nil m u fuel c s hq
   | cons q rest =>
     cases s with
     | mk cfg hist queue status trace err ctx rd errors =>
       simp only at hq h
       subst hq
-      simp only [Term.drainCut, ne_eq, h, not_false_eq_true, if_true]
+      simp only [drainRaised, ne_eq, h, not_false_eq_true, if_true]
 
-theorem drainSteps_cons (m : Machine) (u : UEnv) (budget : Nat) (s : St) (q : QEv) (rest : List QEv)
-    (hq : s.queue = q :: rest) (hrun : s.status = "running") :
-    Term.drainSteps m u (budget + 1) s =
-      if (syncMacro m u q.ev { s with queue := rest }).err.isSome = true then 1
-      else 1 + Term.drainSteps m u budget (syncMacro m u q.ev { s with queue := rest }) := by
+theorem drainRaised_trip (m : Machine) (u : UEnv) (fuel c : Nat) (s : St) (q : QEv) (rest : List QEv)
+    (hq : s.queue = q :: rest) (hrun : s.status = "running") (ht : syncTrips m c q = true) :
+    drainRaised m u (fuel + 1) c s = drainRaised m u fuel 0 (syncPurge s) := by
   cases s with
   | mk cfg hist queue status trace err ctx rd errors =>
     simp only at hq hrun
     subst hq; subst hrun
-    simp only [Term.drainSteps, syncMacro, ne_eq, not_true_eq_false, if_false]
-    rfl
+    simp only [drainRaised, ne_eq, not_true_eq_false, if_false, ht, if_true]
 
-/-- the instrumented step counter of C13 counts exactly the received events -/
-theorem drainLog_length (m : Machine) (u : UEnv) : ∀ (budget : Nat) (s : St),
-    (drainLog m u budget s).length = Term.drainSteps m u budget s := by
-  intro budget
-  induction budget with
-  | zero => intro s; rfl
+theorem drainRaised_step (m : Machine) (u : UEnv) (fuel c : Nat) (s : St) (q : QEv) (rest : List QEv)
+    (hq : s.queue = q :: rest) (hrun : s.status = "running") (ht : syncTrips m c q = false) :
+    drainRaised m u (fuel + 1) c s =
+      (raisedBy m u q.ev { s with queue := rest }).map (·.ev) ++ (if (syncMacro m u q.ev { s with queue := rest }).err.isSome = true then [] else drainRaised m u fuel (chainedNext c q) (syncMacro m u q.ev { s with queue := rest })) := by
+  cases s with
+  | mk cfg hist queue status trace err ctx rd errors =>
+    simp only at hq hrun
+    subst hq; subst hrun
+    simp only [drainRaised, ne_eq, not_true_eq_false, if_false, ht, Bool.false_eq_true]
+
+/-- **FIFO, exactly once (sync drain)**: a drain that nothing cuts short receives exactly the queued
+    events, in queue order, each once, and THEN the events its macrosteps raised, in raise order -/
+theorem drain_fifo (m : Machine) (u : UEnv) : ∀ (fuel c : Nat) (s : St), DrainClean m u fuel c s →
+    drainLog m u fuel c s = s.queue.map (·.ev) ++ drainRaised m u fuel c s := by
+  intro fuel
+  induction fuel with
+  | zero => intro c s h; simp only [DrainClean] at h; simp [drainLog_zero, drainRaised_zero, h]
   | succ n ih =>
-    intro s
+    intro c s h
     cases hq : s.queue with
-    | nil =>
-      rw [drainLog_nil m u n s hq]
-      cases s with
-      | mk cfg hist queue status trace err ctx rd errors =>
-        simp only at hq; subst hq; simp only [Term.drainSteps]; rfl
+    | nil => rw [drainLog_nil m u n c s hq, drainRaised_nil m u n c s hq]; rfl
     | cons q rest =>
-      by_cases hrun : s.status = "running"
-      · rw [drainLog_cons m u n s q rest hq hrun, drainSteps_cons m u n s q rest hq hrun]
-        split
-        · rfl
-        · rw [List.length_cons, ih]; omega
-      · rw [drainLog_not_running m u _ s hrun]
-        cases s with
-        | mk cfg hist queue status trace err ctx rd errors =>
-          simp only at hq hrun
-          subst hq
-          simp only [Term.drainSteps, ne_eq, hrun, not_false_eq_true, if_true]; rfl
+      obtain ⟨hrun, ht, herr, hc⟩ := (DrainClean_cons m u n c s q rest hq).1 h
+      have hns : ¬ (syncMacro m u q.ev { s with queue := rest }).err.isSome = true := by rw [herr]; simp
+      rw [drainLog_cons m u n c s q rest hq hrun ht, drainRaised_step m u n c s q rest hq hrun ht, if_neg hns, if_neg hns,
+        ih _ _ hc, syncMacro_queue]
+      simp
 
-/-- **the events queued when a drain starts are never cut off by the budget.** `init` is a prefix of the queue
-    (what was queued when the drain started; `more` is whatever was enqueued since) and the budget covers it.
-    Then (1) the first events the drain receives ARE the events of `init`, in queue order, none skipped, none
-    twice — as many of them as the drain receives at all; (2) a drain that returns with the interpreter
-    still "running" and without raising has received ALL of `init`; (3) a drain that raises (a macrostep
-    failed: the sync engine aborts the drain) leaves the part of `init` not yet received in the queue, in
-    order, at its head. (The remaining way out: the machine completed / was stopped — the status gate of the
-    drain then drops what is queued, as `send()` drops later events.) -/
-theorem drain_initial (m : Machine) (u : UEnv) : ∀ (init : List QEv) (budget : Nat) (s : St) (more : List QEv),
-    s.queue = init ++ more → init.length ≤ budget →
-    (drainLog m u budget s).take init.length = (init.map (·.ev)).take (drainLog m u budget s).length ∧
-    ((drainLoop m u budget s).err = none → (drainLoop m u budget s).status = "running" →
-      init.length ≤ (drainLog m u budget s).length) ∧
-    (s.status = "running" → (drainLoop m u budget s).err ≠ none →
-      init.drop (drainLog m u budget s).length <+: (drainLoop m u budget s).queue) := by
+open XSM.Term in
+/-- a clean drain is not cut, and leaves nothing queued -/
+theorem drainClean_not_cut (m : Machine) (u : UEnv) : ∀ (fuel c : Nat) (s : St), DrainClean m u fuel c s →
+    Term.drainCut m u fuel c s = false ∧ (drainLoop m u fuel c s).queue = [] := by
+  intro fuel
+  induction fuel with
+  | zero =>
+    intro c s h
+    simp only [DrainClean] at h
+    rw [drainCut_zero, drainLoop_zero]; simp [h]
+  | succ n ih =>
+    intro c s h
+    cases hq : s.queue with
+    | nil => rw [drainCut_nil m u n c s hq, drainLoop_nil m u n c s hq]; exact ⟨rfl, hq⟩
+    | cons q rest =>
+      obtain ⟨hrun, ht, herr, hc⟩ := (DrainClean_cons m u n c s q rest hq).1 h
+      have hns : ¬ (syncMacro m u q.ev { s with queue := rest }).err.isSome = true := by rw [herr]; simp
+      rw [drainCut_step m u n c s q rest hq hrun ht, drainLoop_cons m u n c s q rest hq hrun ht, if_neg hns, if_neg hns]
+      exact ih _ _ hc
+
+-- the events queued when a drain starts (repair of F10) ---------------------------------------------------------------
+open XSM.Term in
+/-- **external events queued at the head when a drain starts are received first, in order.** `init` is a
+    prefix of the queue consisting of EXTERNAL (unmarked) events — what `send()` / `send_events()` accepted on
+    an interpreter with nothing queued, or whatever external events are at the head — `more` is the rest, and
+    the model's fuel covers `init`. Then (1) the first events the drain receives ARE the events of `init`, in
+    queue order, none skipped, none twice — as many of them as the drain receives at all (an external event
+    never trips the bound, and is never purged); (2) a drain that returns with the interpreter still "running"
+    and without raising has received ALL of `init`; (3) a drain that raises (a macrostep failed: the sync
+    engine aborts the drain) leaves the part of `init` not yet received in the queue, in order, at its head.
+    (The remaining way out: the machine completed / was stopped — the status gate of the drain then drops
+    what is queued, as `send()` drops later events.) -/
+theorem drain_initial (m : Machine) (u : UEnv) : ∀ (init : List QEv) (fuel c : Nat) (s : St) (more : List QEv),
+    s.queue = init ++ more → (∀ q ∈ init, q.self = false) → init.length ≤ fuel →
+    (drainLog m u fuel c s).take init.length = (init.map (·.ev)).take (drainLog m u fuel c s).length ∧
+    ((drainLoop m u fuel c s).err = none → (drainLoop m u fuel c s).status = "running" →
+      init.length ≤ (drainLog m u fuel c s).length) ∧
+    (s.status = "running" → (drainLoop m u fuel c s).err ≠ none →
+      init.drop (drainLog m u fuel c s).length <+: (drainLoop m u fuel c s).queue) := by
   intro init
   induction init with
   | nil =>
-    intro budget s more _ _
+    intro fuel c s more _ _ _
     exact ⟨by simp, fun _ _ => Nat.zero_le _, fun _ _ => by simp⟩
   | cons q init' ih =>
-    intro budget s more hq hB
-    obtain ⟨b, rfl⟩ : ∃ b, budget = b + 1 := ⟨budget - 1, by simp only [List.length_cons] at hB; omega⟩
+    intro fuel c s more hq hext hB
+    obtain ⟨b, rfl⟩ : ∃ b, fuel = b + 1 := ⟨fuel - 1, by simp only [List.length_cons] at hB; omega⟩
     have hq' : s.queue = q :: (init' ++ more) := by rw [hq]; rfl
     have hB' : init'.length ≤ b := by simp only [List.length_cons] at hB; omega
+    have hqe : q.self = false := hext q (by simp)
+    have hext' : ∀ x ∈ init', x.self = false := fun x hx => hext x (List.mem_cons_of_mem _ hx)
+    have ht : syncTrips m c q = false := syncTrips_ext m c hqe
     by_cases hrun : s.status = "running"
-    · rw [drainLog_cons m u b s q _ hq' hrun, drainLoop_cons m u b s q _ hq' hrun]
+    · rw [drainLog_cons m u b c s q _ hq' hrun ht, drainLoop_cons m u b c s q _ hq' hrun ht]
       have hsq : (syncMacro m u q.ev { s with queue := init' ++ more }).queue =
           init' ++ (more ++ raisedBy m u q.ev { s with queue := init' ++ more }) := by
         rw [syncMacro_queue]; exact List.append_assoc _ _ _
@@ -326,7 +267,11 @@ theorem drain_initial (m : Machine) (u : UEnv) : ∀ (init : List QEv) (budget :
         · simp only [List.length_cons, List.length_nil, Nat.zero_add, List.drop_succ_cons, List.drop_zero]
           rw [hsq]; exact List.prefix_append _ _
       · rw [if_neg herr, if_neg herr]
-        obtain ⟨i1, i2, i3⟩ := ih b _ _ hsq hB'
+        obtain ⟨i1, i2, i3⟩ := ih b (chainedNext c q) _ _ hsq hext' hB'
+        have hnone : (syncMacro m u q.ev { s with queue := init' ++ more }).err = none := by
+          cases hx : (syncMacro m u q.ev { s with queue := init' ++ more }).err with
+          | none => rfl
+          | some _ => rw [hx] at herr; exact absurd rfl herr
         refine ⟨?_, fun h1 h2 => ?_, fun _ h => ?_⟩
         · simp only [List.length_cons, List.take_succ_cons, List.map_cons]
           rw [i1]
@@ -338,64 +283,50 @@ theorem drain_initial (m : Machine) (u : UEnv) : ∀ (init : List QEv) (budget :
           · exfalso
             apply h
             cases b with
-            | zero =>
-              rw [drainLoop_zero]
-              have : (syncMacro m u q.ev { s with queue := init' ++ more }).err = none := by
-                cases hx : (syncMacro m u q.ev { s with queue := init' ++ more }).err with
-                | none => rfl
-                | some _ => rw [hx] at herr; exact absurd rfl herr
-              split <;> exact this
-            | succ b =>
-              rw [drainLoop_not_running m u b hr']
-              have : (syncMacro m u q.ev { s with queue := init' ++ more }).err = none := by
-                cases hx : (syncMacro m u q.ev { s with queue := init' ++ more }).err with
-                | none => rfl
-                | some _ => rw [hx] at herr; exact absurd rfl herr
-              split <;> exact this
-    · rw [drainLog_not_running m u _ s hrun, drainLoop_not_running m u b hrun]
+            | zero => rw [drainLoop_zero]; split <;> exact hnone
+            | succ b => rw [drainLoop_not_running m u b _ hr']; split <;> exact hnone
+    · rw [drainLog_not_running m u _ c s hrun, drainLoop_not_running m u b c hrun]
       refine ⟨by simp, fun _ h2 => ?_, fun h => absurd h hrun⟩
       exfalso; apply hrun
       split at h2 <;> exact h2
 
-/-- **a drain whose budget is exhausted with events still queued has received every event that was queued
-    when it started and `budget - init.length` more**: what the cut discards was enqueued while draining -/
-theorem drainCut_steps (m : Machine) (u : UEnv) : ∀ (budget : Nat) (s : St),
-    Term.drainCut m u budget s = true → (drainLog m u budget s).length = budget := by
-  intro budget s hc
-  rw [drainLog_length]
-  have h1 := Term.drainSteps_le m u budget s
-  by_cases hlt : Term.drainSteps m u budget s < budget
-  · rw [Term.drainCut_false_of_steps_lt m u budget s hlt] at hc; exact absurd hc (by simp)
-  · omega
+open XSM.Term in
+/-- **a drain in which at most `maxIterations` MARKED events come up is never cut**: the marked entries queued
+    when it starts (`cntSelf`: leftovers of a drain that raised, what `start()` queued) plus the events its
+    macrosteps enqueue (`drainRaised`: every `raise`, every `done.state.*`, every `send` to itself, over all
+    events processed) plus the counter at the start within the bound — however many EXTERNAL events are queued -/
+theorem drainTrips_zero_of_raised (m : Machine) (u : UEnv) : ∀ (fuel c : Nat) (s : St),
+    c + cntSelf s.queue + (drainRaised m u fuel c s).length ≤ m.maxIterations → Term.drainTrips m u fuel c s = 0 := by
+  apply drain_cases m u (fun fuel c s =>
+    c + cntSelf s.queue + (drainRaised m u fuel c s).length ≤ m.maxIterations → Term.drainTrips m u fuel c s = 0)
+  · intro c s _; rfl
+  · intro fuel c s hq _; exact drainTrips_nil m u fuel c s hq
+  · intro fuel c s hr _; exact drainTrips_dead m u fuel c s hr
+  · intro fuel c s q rest hq hr ht _ h
+    exfalso
+    obtain ⟨hself, hlt⟩ := (syncTrips_eq_true m c q).1 ht
+    rw [hq, cntSelf_cons, hself] at h
+    simp only [if_true] at h
+    omega
+  · intro fuel c s q rest hq hr ht ih h
+    rw [drainTrips_step m u fuel c s q rest hq hr ht]
+    split
+    · rfl
+    · rename_i he
+      rw [drainRaised_step m u fuel c s q rest hq hr ht, if_neg he, List.length_append, List.length_map] at h
+      apply ih (by simpa using he)
+      obtain ⟨added, hqa, hm⟩ := syncMacro_marked m u q.ev { s with queue := rest }
+      have hrb : raisedBy m u q.ev { s with queue := rest } = added := by
+        unfold raisedBy; rw [hqa]; simp
+      rw [hrb] at h
+      rw [hqa, cntSelf_append, (cntSelf_all_true hm).1]
+      rw [hq, cntSelf_cons] at h
+      show chainedNext c q + (cntSelf rest + added.length) + _ ≤ _
+      have hc' : chainedNext c q = c + (if q.self = true then 1 else 0) := by
+        unfold chainedNext; split <;> rfl
+      generalize chainedNext c q = c' at h hc' ⊢
+      omega
 
-/-- **a drain in which at most `budget - queue length` events are enqueued while draining is not cut**
-    (`drainRaised`: the events the macrosteps of this drain append, over all events processed) -/
-theorem drainCut_false_of_raised (m : Machine) (u : UEnv) : ∀ (budget : Nat) (s : St),
-    s.queue.length + (drainRaised m u budget s).length ≤ budget → Term.drainCut m u budget s = false := by
-  intro budget
-  induction budget with
-  | zero =>
-    intro s h
-    have : s.queue = [] := List.length_eq_zero_iff.1 (by omega)
-    simp [Term.drainCut, this]
-  | succ n ih =>
-    intro s h
-    cases hq : s.queue with
-    | nil => exact drainCut_nil m u n s hq
-    | cons q rest =>
-      by_cases hrun : s.status = "running"
-      · rw [drainCut_cons m u n s q rest hq hrun]
-        rw [drainRaised_cons m u n s q rest hq hrun, hq] at h
-        split
-        · rfl
-        · rename_i herr
-          rw [if_neg herr] at h
-          apply ih
-          rw [syncMacro_queue]
-          simp only [List.length_append, List.length_cons, List.length_map] at h ⊢
-          have : ({ s with queue := rest } : St).queue.length = rest.length := rfl
-          omega
-      · exact drainCut_not_running m u n s hrun
 
 -- what a drain writes -------------------------------------------------------------------------------------------------
 /-- a record written during the macrostep of `e`: by a transition taken for `e`, or by an eventless
@@ -437,118 +368,129 @@ theorem syncMacro_chron (m : Machine) (u : UEnv) (e : Ev) (s : St) :
 theorem macroRecords_spec (m : Machine) (u : UEnv) (e : Ev) (s : St) : ∀ r ∈ macroRecords m u e s, MacroRec e r :=
   (syncMacro_adds m u e s).chron.2
 
+
 /-- the macrosteps of a drain: the dequeued event with the records written while it was processed -/
-def drainSegs (m : Machine) (u : UEnv) : Nat → St → List (Ev × List String)
-  | 0, _ => []
-  | budget + 1, s =>
+def drainSegs (m : Machine) (u : UEnv) : Nat → Nat → St → List (Ev × List String)
+  | 0, _, _ => []
+  | fuel + 1, c, s =>
     match s.queue with
     | [] => []
     | q :: rest =>
       if s.status ≠ "running" then []
-      else
-        (q.ev, macroRecords m u q.ev { s with queue := rest }) ::
-          (if (syncMacro m u q.ev { s with queue := rest }).err.isSome then []
-           else drainSegs m u budget (syncMacro m u q.ev { s with queue := rest }))
+      else if syncTrips m c q then drainSegs m u fuel 0 (syncPurge s)
+      else (q.ev, macroRecords m u q.ev { s with queue := rest }) :: (if (syncMacro m u q.ev { s with queue := rest }).err.isSome then [] else drainSegs m u fuel (chainedNext c q) (syncMacro m u q.ev { s with queue := rest }))
 
-theorem drainSegs_cons (m : Machine) (u : UEnv) (budget : Nat) (s : St) (q : QEv) (rest : List QEv)
-    (hq : s.queue = q :: rest) (hrun : s.status = "running") :
-    drainSegs m u (budget + 1) s =
-      (q.ev, macroRecords m u q.ev { s with queue := rest }) ::
-        (if (syncMacro m u q.ev { s with queue := rest }).err.isSome = true then []
-         else drainSegs m u budget (syncMacro m u q.ev { s with queue := rest })) := by
-  cases s with
-  | mk cfg hist queue status trace err ctx rd errors =>
-    simp only at hq hrun
-    subst hq; subst hrun
-    simp only [drainSegs, ne_eq, not_true_eq_false, if_false]
+theorem drainSegs_zero (m : Machine) (u : UEnv) (c : Nat) (s : St) : drainSegs m u 0 c s = ([]) := by
+  simp only [drainSegs]
 
-theorem drainSegs_nil (m : Machine) (u : UEnv) (budget : Nat) (s : St) (hq : s.queue = []) :
-    drainSegs m u (budget + 1) s = [] := by
+theorem drainSegs_nil (m : Machine) (u : UEnv) (fuel c : Nat) (s : St) (hq : s.queue = []) :
+    drainSegs m u (fuel + 1) c s = [] := by
   cases s with
   | mk cfg hist queue status trace err ctx rd errors =>
     simp only at hq
     subst hq
     simp only [drainSegs]
 
-theorem drainSegs_not_running (m : Machine) (u : UEnv) (budget : Nat) (s : St) (h : s.status ≠ "running") :
-    drainSegs m u budget s = [] := by
-  cases budget with
+theorem drainSegs_dead (m : Machine) (u : UEnv) (fuel c : Nat) (s : St) (h : s.status ≠ "running") :
+    drainSegs m u (fuel + 1) c s = [] := by
+  cases hq : s.queue with
+  | nil => exact drainSegs_nil m u fuel c s hq
+  | cons q rest =>
+    cases s with
+    | mk cfg hist queue status trace err ctx rd errors =>
+      simp only at hq h
+      subst hq
+      simp only [drainSegs, ne_eq, h, not_false_eq_true, if_true]
+
+theorem drainSegs_trip (m : Machine) (u : UEnv) (fuel c : Nat) (s : St) (q : QEv) (rest : List QEv)
+    (hq : s.queue = q :: rest) (hrun : s.status = "running") (ht : syncTrips m c q = true) :
+    drainSegs m u (fuel + 1) c s = drainSegs m u fuel 0 (syncPurge s) := by
+  cases s with
+  | mk cfg hist queue status trace err ctx rd errors =>
+    simp only at hq hrun
+    subst hq; subst hrun
+    simp only [drainSegs, ne_eq, not_true_eq_false, if_false, ht, if_true]
+
+theorem drainSegs_step (m : Machine) (u : UEnv) (fuel c : Nat) (s : St) (q : QEv) (rest : List QEv)
+    (hq : s.queue = q :: rest) (hrun : s.status = "running") (ht : syncTrips m c q = false) :
+    drainSegs m u (fuel + 1) c s =
+      (q.ev, macroRecords m u q.ev { s with queue := rest }) :: (if (syncMacro m u q.ev { s with queue := rest }).err.isSome = true then [] else drainSegs m u fuel (chainedNext c q) (syncMacro m u q.ev { s with queue := rest })) := by
+  cases s with
+  | mk cfg hist queue status trace err ctx rd errors =>
+    simp only at hq hrun
+    subst hq; subst hrun
+    simp only [drainSegs, ne_eq, not_true_eq_false, if_false, ht, Bool.false_eq_true]
+
+theorem drainSegs_not_running (m : Machine) (u : UEnv) (fuel c : Nat) (s : St) (h : s.status ≠ "running") :
+    drainSegs m u fuel c s = [] := by
+  cases fuel with
   | zero => rfl
-  | succ n =>
-    cases hq : s.queue with
-    | nil => exact drainSegs_nil m u n s hq
-    | cons q rest =>
-      cases s with
-      | mk cfg hist queue status trace err ctx rd errors =>
-        simp only at hq h
-        subst hq
-        simp only [drainSegs, ne_eq, h, not_false_eq_true, if_true]
+  | succ n => exact drainSegs_dead m u n c s h
 
 /-- how one macrostep shows in the trace: its `#recv` record, then its own records -/
 def segRecords (p : Ev × List String) : List String := ("#recv:" ++ p.1.type) :: p.2
 
+open XSM.Term in
 /-- **run-to-completion structure of the trace**: what a drain appends to the trace is the concatenation,
     per dequeued event and in dequeue order, of `#recv:e · records of e's macrostep` — whatever happens
-    (budget cut, error, completion) -/
-theorem drain_chron (m : Machine) (u : UEnv) : ∀ (budget : Nat) (s : St),
-    (drainLoop m u budget s).chron = s.chron ++ (drainSegs m u budget s).flatMap segRecords := by
-  intro budget
-  induction budget with
-  | zero =>
-    intro s
-    rw [drainLoop_zero]
-    split <;> simp [drainSegs, St.chron]
-  | succ n ih =>
-    intro s
-    cases hq : s.queue with
-    | nil => rw [drainLoop_nil m u n s hq, drainSegs_nil m u n s hq]; simp
-    | cons q rest =>
-      by_cases hrun : s.status = "running"
-      · rw [drainLoop_cons m u n s q rest hq hrun, drainSegs_cons m u n s q rest hq hrun]
-        have hc := syncMacro_chron m u q.ev { s with queue := rest }
-        have hs : ({ s with queue := rest } : St).chron = s.chron := rfl
-        rw [hs] at hc
-        split
-        · rw [hc]; simp [segRecords]
-        · rw [ih, hc]; simp [segRecords]
-      · rw [drainLoop_not_running m u n hrun, drainSegs_not_running m u _ s hrun]
-        split <;> simp [St.chron]
+    (cuts, error, completion) -/
+theorem drain_chron (m : Machine) (u : UEnv) : ∀ (fuel c : Nat) (s : St),
+    (drainLoop m u fuel c s).chron = s.chron ++ (drainSegs m u fuel c s).flatMap segRecords := by
+  apply drain_cases m u (fun fuel c s =>
+    (drainLoop m u fuel c s).chron = s.chron ++ (drainSegs m u fuel c s).flatMap segRecords)
+  · intro c s
+    rw [drainLoop_zero, drainSegs_zero]
+    split <;> simp [St.chron]
+  · intro fuel c s hq; rw [drainLoop_nil m u fuel c s hq, drainSegs_nil m u fuel c s hq]; simp
+  · intro fuel c s hr
+    rw [drainLoop_not_running m u fuel c hr, drainSegs_dead m u fuel c s hr]
+    split <;> simp [St.chron]
+  · intro fuel c s q rest hq hr ht ih
+    rw [drainLoop_trip m u fuel c s q rest hq hr ht, drainSegs_trip m u fuel c s q rest hq hr ht, ih]
+    rfl
+  · intro fuel c s q rest hq hr ht ih
+    rw [drainLoop_cons m u fuel c s q rest hq hr ht, drainSegs_step m u fuel c s q rest hq hr ht]
+    have hc := syncMacro_chron m u q.ev { s with queue := rest }
+    have hs : ({ s with queue := rest } : St).chron = s.chron := rfl
+    rw [hs] at hc
+    split
+    · rw [hc]; simp [segRecords]
+    · rename_i he
+      rw [ih (by simpa using he), hc]; simp [segRecords]
 
-theorem drainSegs_events (m : Machine) (u : UEnv) : ∀ (budget : Nat) (s : St),
-    (drainSegs m u budget s).map (·.1) = drainLog m u budget s := by
-  intro budget
-  induction budget with
-  | zero => intro s; rfl
-  | succ n ih =>
-    intro s
-    cases hq : s.queue with
-    | nil => rw [drainSegs_nil m u n s hq, drainLog_nil m u n s hq]; rfl
-    | cons q rest =>
-      by_cases hrun : s.status = "running"
-      · rw [drainSegs_cons m u n s q rest hq hrun, drainLog_cons m u n s q rest hq hrun]
-        split
-        · simp
-        · simp [ih]
-      · rw [drainSegs_not_running m u _ s hrun, drainLog_not_running m u _ s hrun]; rfl
+open XSM.Term in
+theorem drainSegs_events (m : Machine) (u : UEnv) : ∀ (fuel c : Nat) (s : St),
+    (drainSegs m u fuel c s).map (·.1) = drainLog m u fuel c s := by
+  apply drain_cases m u (fun fuel c s => (drainSegs m u fuel c s).map (·.1) = drainLog m u fuel c s)
+  · intro c s; rfl
+  · intro fuel c s hq; rw [drainSegs_nil m u fuel c s hq, drainLog_nil m u fuel c s hq]; rfl
+  · intro fuel c s hr; rw [drainSegs_dead m u fuel c s hr, drainLog_not_running m u _ c s hr]; rfl
+  · intro fuel c s q rest hq hr ht ih
+    rw [drainSegs_trip m u fuel c s q rest hq hr ht, drainLog_trip m u fuel c s q rest hq hr ht]; exact ih
+  · intro fuel c s q rest hq hr ht ih
+    rw [drainSegs_step m u fuel c s q rest hq hr ht, drainLog_cons m u fuel c s q rest hq hr ht]
+    split
+    · simp
+    · rename_i he
+      simp [ih (by simpa using he)]
 
-theorem drainSegs_records (m : Machine) (u : UEnv) : ∀ (budget : Nat) (s : St),
-    ∀ p ∈ drainSegs m u budget s, ∀ r ∈ p.2, MacroRec p.1 r := by
-  intro budget
-  induction budget with
-  | zero => intro s p hp; simp [drainSegs] at hp
-  | succ n ih =>
-    intro s p hp
-    cases hq : s.queue with
-    | nil => rw [drainSegs_nil m u n s hq] at hp; simp at hp
-    | cons q rest =>
-      by_cases hrun : s.status = "running"
-      · rw [drainSegs_cons m u n s q rest hq hrun] at hp
-        rcases List.mem_cons.1 hp with hp | hp
-        · subst hp; exact macroRecords_spec m u q.ev _
-        · split at hp
-          · simp at hp
-          · exact ih _ p hp
-      · rw [drainSegs_not_running m u _ s hrun] at hp; simp at hp
+open XSM.Term in
+theorem drainSegs_records (m : Machine) (u : UEnv) : ∀ (fuel c : Nat) (s : St),
+    ∀ p ∈ drainSegs m u fuel c s, ∀ r ∈ p.2, MacroRec p.1 r := by
+  apply drain_cases m u (fun fuel c s => ∀ p ∈ drainSegs m u fuel c s, ∀ r ∈ p.2, MacroRec p.1 r)
+  · intro c s p hp; simp [drainSegs] at hp
+  · intro fuel c s hq p hp; rw [drainSegs_nil m u fuel c s hq] at hp; simp at hp
+  · intro fuel c s hr p hp; rw [drainSegs_dead m u fuel c s hr] at hp; simp at hp
+  · intro fuel c s q rest hq hr ht ih p hp
+    rw [drainSegs_trip m u fuel c s q rest hq hr ht] at hp; exact ih p hp
+  · intro fuel c s q rest hq hr ht ih p hp
+    rw [drainSegs_step m u fuel c s q rest hq hr ht] at hp
+    rcases List.mem_cons.1 hp with hp | hp
+    · subst hp; exact macroRecords_spec m u q.ev _
+    · split at hp
+      · simp at hp
+      · rename_i he
+        exact ih (by simpa using he) p hp
 
 -- the async run loop ---------------------------------------------------------------------------------------------------
 theorem asyncLogQ_cons (m : Machine) (u : UEnv) (fuel : Nat) (s : St) (q : QEv) (rest : List QEv)
